@@ -64,12 +64,30 @@ def gen_one(rng):
         ops += [{"k": "create", "n": a}, mut(a), {"k": "drop", "n": a}, {"k": "create", "n": b}, mut(b), {"k": "drop", "n": b},
                 {"k": "undrop", "n": rng.choice([a, b])}, {"k": "undrop", "n": rng.choice([a, b])}]
         return {"ops": ops}
-    first = _name(rng, 1)
-    ops.append({"k": "create", "n": first})
-    for _ in range(rng.randint(1, 3)):
-        ops.append(mut(first))
-    n = rng.randint(5, 9)
-    while len(ops) < n + 2:
+    y = rng.random()
+    if y < 0.17:
+        # two generations of one exact name, then both restored (either order)
+        x = _name(rng, rng.choice([1, 2]))
+        ops += [{"k": "create", "n": x}, mut(x), {"k": "drop", "n": x}, {"k": "create", "n": x}, mut(x), {"k": "drop", "n": x}]
+        tail = [{"k": "undrop", "n": _name(rng, BASES.index(x.lower()), 0.5)}, {"k": "undropx", "n": x.lower()}]
+        rng.shuffle(tail)
+        ops += tail
+        n = rng.randint(0, 2)
+    elif y < 0.34:
+        # the root database
+        ops += [mut("test"), {"k": "drop", "n": _name(rng, 0)}]
+        if rng.random() < 0.4:
+            ops += [{"k": "create", "n": _name(rng, 0, 0.8)}, {"k": "undrop", "n": "test"}, {"k": "drop", "n": "test"}]
+        ops.append({"k": "undrop", "n": _name(rng, 0, 0.5)})
+        n = rng.randint(1, 4)
+    else:
+        first = _name(rng, 1)
+        ops.append({"k": "create", "n": first})
+        for _ in range(rng.randint(1, 3)):
+            ops.append(mut(first))
+        n = rng.randint(5, 9) - len(ops)
+    n += len(ops)
+    while len(ops) < n:
         x = rng.random()
         cls = rng.choice([0, 1, 1, 1, 2, 2])
         if x < 0.13:
